@@ -366,4 +366,66 @@ theorem compute_complete_core (m : Meta) (hm : m.WellFormed) (opts : List Opt) (
   | none => rw [hsb] at hsome; simp at hsome
   | some r => exact ⟨_, rfl⟩
 
+/-! ### the stat produced by valid options is well formed -/
+
+theorem gradeMultiplierE4_nonneg (b : Bool) (g : Int) : 0 ≤ gradeMultiplierE4 b g := by
+  unfold gradeMultiplierE4
+  cases b <;> simp only [Bool.false_eq_true, if_false, if_true] <;> repeat' split <;> omega
+
+theorem zlBasis_nonneg {b : Int} (h : 0 ≤ b) : 0 ≤ zlBasis b := by
+  unfold zlBasis
+  repeat' split <;> omega
+
+theorem attackValue_nonneg (m : Meta) (hb : m.wclass = .notWeapon ∨ 0 ≤ m.baseAtt ∨ 0 ≤ m.baseMatt)
+    {g : Int} (hg : 1 ≤ g) : 0 ≤ attackValue m g := by
+  unfold attackValue
+  split
+  · omega
+  · rename_i hw
+    have hb' : 0 ≤ m.baseAtt ∨ 0 ≤ m.baseMatt := by
+      rcases hb with h | h
+      · exact absurd h (by simpa using hw)
+      · exact h
+    simp only
+    have hbasis0 : 0 ≤ (if m.baseAtt > m.baseMatt then m.baseAtt else m.baseMatt) := by
+      split <;> omega
+    have hbasis : 0 ≤ (if m.wclass = .swordZL then zlBasis (if m.baseAtt > m.baseMatt then m.baseAtt else m.baseMatt)
+        else (if m.baseAtt > m.baseMatt then m.baseAtt else m.baseMatt)) := by
+      split
+      · exact zlBasis_nonneg hbasis0
+      · exact hbasis0
+    have hgm := gradeMultiplierE4_nonneg m.bossReward g
+    have hn := Int.mul_nonneg (Int.mul_nonneg hbasis hgm)
+      (show (0 : Int) ≤ (if (decide (m.wclass = .swordZB) || decide (m.wclass = .swordZL)) = true then
+          (if m.reqLevel > 180 then 6 else if m.reqLevel > 160 then 5 else if m.reqLevel > 110 then 4 else 3)
+        else if m.bossReward = true then
+          (if m.reqLevel > 160 then 18 else if m.reqLevel > 150 then 15 else if m.reqLevel > 110 then 12 else 9)
+        else (if m.reqLevel > 110 then 4 else 3)) by repeat' split <;> omega)
+    unfold ceilDiv
+    omega
+
+theorem sum_wellFormed (m : Meta) (hm : m.WellFormed)
+    (hb : m.wclass = .notWeapon ∨ 0 ≤ m.baseAtt ∨ 0 ≤ m.baseMatt) :
+    ∀ (opts : List Opt), (∀ o ∈ opts, validGrade m o.2 = true) → (sumImprove m opts).WellFormed := by
+  intro opts hv
+  obtain ⟨e1, e2, e3⟩ := mul_eq_sum m opts
+  have hnn : 0 ≤ (sumImprove m opts).mhp ∧ 0 ≤ (sumImprove m opts).mmp ∧ 0 ≤ (sumImprove m opts).att
+      ∧ 0 ≤ (sumImprove m opts).matt ∧ 0 ≤ (sumImprove m opts).boss ∧ 0 ≤ (sumImprove m opts).dmg
+      ∧ 0 ≤ (sumImprove m opts).mul.s := by
+    induction opts with
+    | nil => simp [sumImprove, Obs.zero]
+    | cons x xs ih =>
+      obtain ⟨k, g⟩ := x
+      have ih' := ih (fun o ho => hv o (by simp [ho])) (mul_eq_sum m xs).1 (mul_eq_sum m xs).2.1
+        (mul_eq_sum m xs).2.2
+      have hg : 1 ≤ g := grade_pos ((mem_grades_iff m g).2 (hv (k, g) (by simp)))
+      have ha := attackValue_nonneg m hb hg
+      have hr : 0 ≤ m.reqLevel / 10 * 30 * g := by
+        have : 0 ≤ m.reqLevel / 10 := by unfold Meta.WellFormed at hm; omega
+        exact Int.mul_nonneg (by omega) (by omega)
+      simp only [sumImprove, Obs.add_mhp, Obs.add_mmp, Obs.add_att, Obs.add_matt, Obs.add_boss, Obs.add_dmg,
+        Obs.add_mul, V4.add_s]
+      cases k <;> simp [improve, ofSdil, Obs.zero] <;> omega
+  exact ⟨hnn.1, hnn.2.1, hnn.2.2.1, hnn.2.2.2.1, hnn.2.2.2.2.1, hnn.2.2.2.2.2.1, hnn.2.2.2.2.2.2, e1, e2, e3⟩
+
 end Simaple.Bonus
